@@ -92,7 +92,8 @@ def build():
                spec="""ensures r == (match line_mapping.original_startline {
                         Some(os) => (os as u32, match line_mapping.original_endline { Some(l) => l as u32, None => 0xffff_ffffu32 }),
                         None => (line_mapping.startline as u32, line_mapping.endline as u32) })""")
-    r2.closure("|l|", params="|l: usize|", ret="r: u32", spec="ensures r == ({body})")
+    if "|l|" in r2.orig:
+        r2.closure("|l|", params="|l: usize|", ret="r: u32", spec="ensures r == ({body})")
     u.emit(r2, prefix="""fn region_writer_interpretation(line_mapping: Option<LineMapping>) -> (ret: (u32, u32, u32, u32))
     ensures
         // in the representable domain the four stored numbers encode exactly the interpretation (u32::MAX = "no original end")
